@@ -264,8 +264,14 @@ func r10_4(c *Ctx) {
 		c.bad(name+":getbody", P.pos(fn.Pos()), "resetRequestBody never calls r.GetBody(): a consumed body is re-sent on retry")
 		return
 	}
-	getErr := func(v ssa.Value) bool { e, ok := v.(*ssa.Extract); return ok && e.Index == 1 && e.Tuple == ssa.Value(get) }
-	getBody := func(v ssa.Value) bool { e, ok := v.(*ssa.Extract); return ok && e.Index == 0 && e.Tuple == ssa.Value(get) }
+	getErr := func(v ssa.Value) bool {
+		e, ok := v.(*ssa.Extract)
+		return ok && e.Index == 1 && e.Tuple == ssa.Value(get)
+	}
+	getBody := func(v ssa.Value) bool {
+		e, ok := v.(*ssa.Extract)
+		return ok && e.Index == 0 && e.Tuple == ssa.Value(get)
+	}
 	// writes to r.Body
 	nW := 0
 	for _, a := range P.fieldAccesses("http.Request", "Body") {
@@ -279,8 +285,14 @@ func r10_4(c *Ctx) {
 	if nW == 0 {
 		c.bad(name+":body-write", P.pos(fn.Pos()), "the fresh body is never installed")
 	}
-	isGetBodyFn := func(v ssa.Value) bool { b, ok := isFieldLoad(v, "http.Request", "GetBody"); return ok && b == ssa.Value(r) }
-	isBody := func(v ssa.Value) bool { b, ok := isFieldLoad(v, "http.Request", "Body"); return ok && b == ssa.Value(r) }
+	isGetBodyFn := func(v ssa.Value) bool {
+		b, ok := isFieldLoad(v, "http.Request", "GetBody")
+		return ok && b == ssa.Value(r)
+	}
+	isBody := func(v ssa.Value) bool {
+		b, ok := isFieldLoad(v, "http.Request", "Body")
+		return ok && b == ssa.Value(r)
+	}
 	for i, ret := range returnsOf(fn) {
 		rn := name + ":return#" + itoa(i)
 		for _, s := range sources(ret.Results[0]) {
